@@ -209,11 +209,11 @@ def startup (s : State) (versionLine : Bytes) : List Bytes :=
 /-- the routing tag names (id, serial); `none` = malformed or out of range -/
 def parseTag (tag : Bytes) : Option (Int × Nat) :=
   let (idv, e) := strtol 16 tag
-  if tag.getD e 0 != 95 then none       -- sep[0] != '_'
+  if e == 0 || tag.getD e 0 != 95 then none       -- sep == routing || sep[0] != '_'
   else
     let rest := tag.drop (e + 1)
     let (sv, e2) := strtoul 16 rest
-    if e2 < rest.length then none       -- sep[0] != '\0'
+    if e2 == 0 || e2 < rest.length then none       -- sep == routing || sep[0] != '\0'
     else if idv < 0 || idv > 4294967295 || sv > 4294967295 then none
     else some (toInt32 idv, sv)
 
